@@ -19,17 +19,23 @@ type lockItem struct {
 
 type state struct {
 	held  map[lockItem]bool
+	acq   map[lockItem]token.Pos // where each held lock was acquired in this function (absent: by a caller / unknown)
 	fresh map[types.Object]bool // locals holding a freshly allocated, not yet published tracked object
 	dead  bool                  // unreachable
 }
 
-func newState() *state { return &state{held: map[lockItem]bool{}, fresh: map[types.Object]bool{}} }
+func newState() *state {
+	return &state{held: map[lockItem]bool{}, fresh: map[types.Object]bool{}, acq: map[lockItem]token.Pos{}}
+}
 
 func (s *state) clone() *state {
 	n := newState()
 	n.dead = s.dead
 	for k := range s.held {
 		n.held[k] = true
+	}
+	for k, v := range s.acq {
+		n.acq[k] = v
 	}
 	for k := range s.fresh {
 		n.fresh[k] = true
@@ -54,6 +60,9 @@ func meet(a, b *state) *state {
 	for k := range a.held {
 		if b.held[k] {
 			n.held[k] = true
+			if pa, ok := a.acq[k]; ok && pa == b.acq[k] {
+				n.acq[k] = pa
+			}
 		}
 	}
 	for k := range a.fresh {
@@ -69,7 +78,7 @@ func sameState(a, b *state) bool {
 		return false
 	}
 	for k := range a.held {
-		if !b.held[k] {
+		if !b.held[k] || a.acq[k] != b.acq[k] {
 			return false
 		}
 	}
@@ -84,7 +93,8 @@ func sameState(a, b *state) bool {
 // ---- analysis units (functions and goroutine bodies)
 
 type access struct {
-	Loc   string // "Type.field" or "var name"
+	Acq   map[string]string // lock name -> position of the Lock() call of the critical section ("entry": held by the caller)
+	Loc   string            // "Type.field" or "var name"
 	Write bool
 	Init  bool
 	Locks []lockItem
@@ -94,6 +104,8 @@ type access struct {
 }
 
 type callsite struct {
+	pos    token.Pos
+	acq    map[string]string
 	callee *unit
 	held   []lockItem // already translated into the callee's names
 	async  string     // "" for a plain call; class name when started with `go`
@@ -192,6 +204,8 @@ func unparen(e ast.Expr) ast.Expr {
 }
 
 // mutexCall recognises X.mu.Lock() / X.mu.Unlock() (also through an embedded mutex) and returns the lock
+var lastMutexBase ast.Expr // base expression of the mutex of the last successful mutexCall
+
 func mutexCall(c *ast.CallExpr) (item lockItem, method string, ok bool) {
 	se, isSel := c.Fun.(*ast.SelectorExpr)
 	if !isSel {
@@ -247,6 +261,7 @@ func mutexCall(c *ast.CallExpr) (item lockItem, method string, ok bool) {
 	} else {
 		item.Key, _ = exprKey(base)
 	}
+	lastMutexBase = base
 	return item, method, true
 }
 
@@ -297,6 +312,7 @@ func (w *walker) access(st *state, loc string, write bool, base ast.Expr, pos to
 		}
 	}
 	sort.Slice(a.Locks, func(i, j int) bool { return a.Locks[i].Mu < a.Locks[j].Mu })
+	a.Acq = acqOf(st, a.Locks)
 	w.u.accesses = append(w.u.accesses, a)
 }
 
@@ -335,4 +351,16 @@ func isFreshAlloc(e ast.Expr) bool {
 		}
 	}
 	return false
+}
+
+func acqOf(st *state, locks []lockItem) map[string]string {
+	m := map[string]string{}
+	for _, l := range locks {
+		if p, ok := st.acq[l]; ok && p != token.NoPos {
+			m[l.Mu] = posStr(p)
+		} else {
+			m[l.Mu] = "entry"
+		}
+	}
+	return m
 }
